@@ -264,7 +264,13 @@ def step (st : St) (toks : List String) : St × String :=
       let chunks := match kv rest "chunks" with
         | some cs => if cs == "-" then [] else (cs.splitOn ";").filterMap unhexOrDash
         | none => []
-      (st, hexOrDash (Spec.stream2022 C c psks ((kv rest "eih") == some "1") salt fixed var_ chunks))
+      match (kv rest "bodypsk").bind Crypto.Base64.decode with
+      | none => (st, hexOrDash (Spec.stream2022 C c psks ((kv rest "eih") == some "1") salt fixed var_ chunks))
+      | some bp =>
+        -- identity headers as for `psks`, body sealed under another key (a user presenting someone else's identity)
+        let sub := Spec.sessionSubkey C c bp salt
+        (st, hexOrDash (salt ++ Spec.identityHeaders C c salt psks ++ C.sealB c.alg sub (Spec.leNonce 0) [] fixed ++
+          C.sealB c.alg sub (Spec.leNonce 1) [] var_ ++ Spec.chunkStream C c.alg sub 2 chunks))
     | _, _, _, _, _ => (st, "bad-op")
   | "craft.sslegacy" :: rest =>
     match (kv rest "cipher").bind Spec.cipherOf, kv rest "password", (kv rest "salt").bind unhexOrDash, kv rest "chunks" with
